@@ -332,8 +332,9 @@ def describe(prog):
         return out
     decls = []
     for d in prog['inputs'] + prog['outputs']:
-        extra = {k: d[k] for k in ('capture', 'handler', 'resolver', 'fallback', 'run_original', 'substitute', 'fail_on_no_result', 'default')
-                 if k in d and d[k] not in (None, 'all', False, ('none',), True)}
+        dflt = {'capture': 'all', 'handler': None, 'resolver': None, 'fallback': None, 'run_original': False, 'substitute': ('none',),
+                'fail_on_no_result': True, 'default': None}
+        extra = {k: d[k] for k in dflt if k in d and not (type(d[k]) is type(dflt[k]) and d[k] == dflt[k])}
         decls.append('%s:%s alias=%r n=%d %s%s' % (d['name'], d['kind'], d['alias'], d['nparams'], extra or '',
                                                    ' nested=' + ';'.join(s_steps(d['nested'])) if d['nested'] else ''))
     return {'class_level': prog['class_level'], 'extractor': prog['extractor'], 'params': prog['params'],
@@ -510,6 +511,23 @@ class Built(object):
         if cap == 'none':
             return {}
         return {'p%d' % i: named['p%d' % i] for i in cap if 'p%d' % i in named}
+
+    def key_identity(self, d, args, kwargs):
+        """Reference identity of an input call for lookup purposes: resolved alias + captured values, where a captured
+        parameter passed positionally and the same parameter passed by keyword are different identities (documented)."""
+        cap = d.get('capture', 'all')
+        if cap == 'all':
+            pos, kw = list(args), dict(kwargs)
+        elif cap == 'none':
+            pos, kw = [], {}
+        else:
+            pos, kw = [], {}
+            for i in cap:
+                if 'p%d' % i in kwargs:
+                    kw['p%d' % i] = kwargs['p%d' % i]
+                elif i < len(args):
+                    pos.append(args[i])
+        return (self.resolved_alias(d, args, kwargs), canon(pos), canon(kw))
 
     def _make_body(self, d):
         built = self
@@ -780,3 +798,124 @@ def playback_function_for(built):
             raise built.last_outcome.value
         return built.last_outcome.value
     return playback_function
+
+
+# ------------------------------------------------------------------------------------------------------
+# behavioural edit operators (P -> P')
+
+import copy as _copy
+
+
+def _clone(x):
+    # program structure (dicts / lists) is copied; literal values and tuples are shared by reference: programs never
+    # mutate literals, and copying a set changes its iteration order (which the framework's keys depend on, see C06)
+    if isinstance(x, dict):
+        if 'lit' in x and len(x) == 1:
+            return {'lit': x['lit']}
+        return {k: _clone(v) for k, v in x.items()}
+    if isinstance(x, list):
+        return [_clone(v) for v in x]
+    return x
+
+
+def clone(prog):
+    p = _clone(prog)
+    p['uid'] = next(_uid)
+    return p
+
+
+def _top_steps(prog, io):
+    return [i for i, s in enumerate(prog['body']) if s['op'] == io]
+
+
+def edit_program(prog, rng, kinds=None):
+    """Returns (P', list of edits applied). Output-side and result-side edits only."""
+    p = clone(prog)
+    kinds = kinds or ['chg_arg', 'drop', 'add', 'swap', 'dup', 'chg_result', 'raise']
+    applied = []
+    for _ in range(rng.choice([1, 1, 2])):
+        k = rng.choice(kinds)
+        outs = _top_steps(p, 'out')
+        if k == 'chg_arg' and outs:
+            i = rng.choice(outs)
+            s = p['body'][i]
+            if s['args']:
+                s['args'][rng.randrange(len(s['args']))] = {'lit': ('EDITED', rng.randrange(1000))}
+            elif s['kwargs']:
+                s['kwargs'][sorted(s['kwargs'])[0]] = {'lit': ('EDITED', rng.randrange(1000))}
+            else:
+                s['kwargs']['extra'] = {'lit': 'EDITED'}
+            applied.append((k, i))
+        elif k == 'drop' and outs:
+            i = rng.choice(outs)
+            del p['body'][i]
+            applied.append((k, i))
+        elif k == 'add' and p['outputs']:
+            d = rng.choice(p['outputs'])
+            if _alias_used_in_threads(p, d['name']):
+                continue
+            c = _gen_call(rng, p, d, [])
+            pos = rng.randrange(len(p['body']) + 1)
+            if p['body'] and p['body'][-1]['op'] in ('return', 'raise'):
+                pos = min(pos, len(p['body']) - 1)
+            p['body'].insert(pos, c)
+            applied.append((k, pos))
+        elif k == 'swap' and len(outs) >= 2:
+            i, j = rng.sample(outs, 2)
+            p['body'][i], p['body'][j] = p['body'][j], p['body'][i]
+            applied.append((k, i, j))
+        elif k == 'dup' and outs:
+            i = rng.choice(outs)
+            c = _clone(p['body'][i])
+            c['var'] = 'v%d' % next(_uid)
+            p['body'].insert(i + 1, c)
+            applied.append((k, i))
+        elif k == 'chg_result':
+            if p['body'] and p['body'][-1]['op'] in ('return', 'raise'):
+                p['body'].pop()
+            p['body'].append({'op': 'return', 'expr': {'lit': ('EDITED-RESULT', rng.randrange(1000))}})
+            applied.append((k,))
+        elif k == 'raise':
+            if p['body'] and p['body'][-1]['op'] in ('return', 'raise'):
+                p['body'].pop()
+            p['body'].append({'op': 'raise', 'kind': 'user'})
+            applied.append((k,))
+    return p, applied
+
+
+def _alias_used_in_threads(prog, name):
+    for s in prog['body']:
+        if s['op'] == 'threads':
+            for b in s['bodies']:
+                for x in b:
+                    if x.get('decl') == name:
+                        return True
+    return False
+
+
+def expected_outputs(built, journal, include_operation=True):
+    """The output map the property promises, computed from the client-side journal alone:
+    {key(alias, k-th call of that alias): {'args': positional args without the instance, 'kwargs': kwargs}} plus the
+    operation entry.  Returns (map, operation_entry) where operation_entry is ('ret', value) | ('exc', exc) | None."""
+    from playback.tape_recorder import TapeRecorder
+    keyf = TapeRecorder._output_interception_key
+    counters = {}
+    out = {}
+    for e in journal.events:
+        if e['ev'] == 'call' and e['io'] == 'out' and not e['nested']:
+            d = built.decls[e['decl']]
+            n = counters.get(d['alias'], 0) + 1
+            counters[d['alias']] = n
+            if d.get('handler'):
+                v = {'hargs': list(e['args']), 'hkw': dict(e['kwargs']), 'by': 'out-handler'}
+            else:
+                v = {'args': list(e['args']), 'kwargs': dict(e['kwargs'])}
+            out[keyf(d['alias'], n) + '.output'] = v
+    op = None
+    for e in journal.events:
+        if e['ev'] == 'op_body':
+            if 'returned' in e:
+                op = ('ret', e['returned'])
+            elif 'raised' in e and isinstance(e['raised'], Exception):
+                op = ('exc', e['raised'])
+    return out, op
